@@ -36,6 +36,7 @@ def bounds(tier):
         "deviation_bound": 1 if tier == "quick" else 2,
         "family_sizes": SIZES_QUICK if tier == "quick" else SIZES_THOROUGH,
         "families": sorted(FAMILIES),
+        "implementation_identifiers": "every attribute name of every bibtexparser module and class (harvested at run time) as entry type, key, field key, string name and bare value",
     }
 
 
@@ -114,7 +115,20 @@ def shards(tier):
         for n in sizes:
             out.append(("fam", name, n))
     out += [("history", i) for i in range(len(WORKFLOWS))]
+    out += [("idents", i) for i in range(IDENT_SHARDS)]
     return out
+
+
+IDENT_SHARDS = 8
+
+
+def ident_texts(w):
+    """A word the implementation uses for itself, written by a user wherever the grammar takes a name."""
+    yield f"@{w}{{k, t = {{v}}}}"
+    yield f"@{w}{{{w}, {w} = {w}}}\n@{w.upper()} {{k2, {w.upper()} = 1}}"
+    yield f'@string{{{w} = "x"}}\n@a{{k, f = {w}, {w} = f}}'
+    yield f"@a{{k0, t = 1}}\n@{w}{{"
+    yield f"@{w}{{k, a b}}\n@{w}{{k, a = 1, a = 2}}\n@{w}{{k}}"
 
 
 def _workflows():
@@ -329,6 +343,11 @@ def _run_shard(shard, tier, acc):
             check_text(text, acc)
     elif kind == "history":
         check_history(shard[1], acc)
+    elif kind == "idents":
+        for w in spaces.implementation_identifiers()[shard[1] :: IDENT_SHARDS]:
+            for text in ident_texts(w):
+                acc.count("identifier_texts")
+                check_text(text, acc)
     elif kind == "fam":
         _, name, n = shard
         wd = 120 if tier == "quick" else 900
